@@ -42,6 +42,7 @@ Print Assumptions C07_check_registry_iff.
 (* the loop functions the model special-cases are soyhtml's loopFuncs (table regenerated from funcs.go) *)
 Theorem C07_loop_funcs_tied : loop_func_names = Generated.Tables.html_loop_funcs.
 Proof. exact loop_func_names_table. Qed.
+Print Assumptions C07_loop_funcs_tied.
 
 (* Registry.Add's expression for the Optional flag of a folded header param, regenerated from
    registry.go on every run, is the ? marker alone (a default value does not make a param optional:
@@ -49,6 +50,7 @@ Proof. exact loop_func_names_table. Qed.
 Theorem C07_header_param_optional : forall opt has_default has_type,
   Generated.Tables.header_param_optional opt has_default has_type = opt.
 Proof. exact header_param_optional_spec. Qed.
+Print Assumptions C07_header_param_optional.
 
 (* There are two hand-written models of parsepasses.CheckDataRefs: Model/Checker.v (this property: over the
    view of RefView.v) and Model/Compile.v (C13: fuel recursion over ast nodes through Children(), with the Go
@@ -78,6 +80,7 @@ Print Assumptions C07_compile_models_agree.
 Theorem C07_checker_models_agree_run : forall reg,
   registry_maps_sorted reg = true -> check_registry_c13 reg = check_registry reg.
 Proof. exact check_registry_c13_agrees. Qed.
+Print Assumptions C07_checker_models_agree_run.
 
 (* The tree shape both models walk -- which fields of a node Children() returns, in which order -- is read from
    ast/node.go on every run: tablegen translates every Children() method into selectors over the receiver's
@@ -94,6 +97,7 @@ Theorem C07_children_match_source : forall ko0 n,
   | None => children (sorted_after ko0) n = []
   end.
 Proof. exact children_matches_source. Qed.
+Print Assumptions C07_children_match_source.
 
 (* ------------------------------------------------------------------ *)
 (* 2. static scoping is sound for the scope stack *)
